@@ -24,7 +24,8 @@ import time
 
 ROOT = os.path.dirname(os.path.dirname(os.path.abspath(__file__)))
 PY = os.path.join(ROOT, ".venv", "bin", "python")
-EVID = os.path.join(ROOT, "evidence")
+EVID = os.environ.get("VF_EVID") or os.path.join(ROOT, "evidence")
+ALT_REPO = os.environ.get("VF_REPO")  # evaluate a scratch worktree instead of /repo (seeded-mutation trials only)
 KNOWN = os.path.join(ROOT, "known_findings.txt")
 
 HARNESS_ERROR = 3
@@ -66,7 +67,7 @@ def modules_for(pid: str) -> list[str]:
 
 def child_env(stats: str | None = None, replay: bool = False) -> dict[str, str]:
     env = dict(os.environ)
-    env["PYTHONPATH"] = ROOT
+    env["PYTHONPATH"] = ROOT + ((":" + os.path.join(ALT_REPO, "src")) if ALT_REPO else "")
     env["PYTHONHASHSEED"] = env.get("VF_HASHSEED", "0")
     env["TZ"] = "UTC"
     env.pop("VF_STATS", None)
@@ -269,7 +270,11 @@ def main(argv: list[str] | None = None) -> int:
         elif res["verdict"] == "counterexample":
             rp = replay(res["module"], res["cex"]["fn"], res["cex"]["args"])
             res["replay"] = rp
-            if rp.get("ok") is False or (rp.get("exc") and rp.get("ok") is None):
+            if (rp.get("exc") or "").startswith(("HarnessError", "UnsupportedSQL")):
+                res["verdict"] = "harness_error"
+                res["detail"] = "harness raised: " + str(rp.get("exc"))
+                harness_errors.append(res)
+            elif rp.get("ok") is False or (rp.get("exc") and rp.get("ok") is None):
                 key = rp.get("key") or ("%s/%s/exception:%s" % (pid, res["fn"], (rp.get("exc") or "").split(":")[0]))
                 res["key"] = key
                 if key in known:
